@@ -326,8 +326,29 @@ def is_expr_pattern(p):
     return bool(re.match(FN, p) or re.match(VAR, p) or p.startswith('field.') or ' and ' in p or ' or ' in p or p.startswith('('))
 
 
+def rank(sig):
+    """Severity of a culprit's label: unclassified (0) > a class whose finding is recorded as FIXED, i.e. a
+    regression, never suppressed (1) > a still-known finding (2)."""
+    if sig.startswith('C14/unclassified'):
+        return 0
+    return 2 if sig in SUPPRESSED else 1
+
+
+def label(preds):
+    """One culprit rule: a still-known defect class that applies explains its failure; otherwise the failure
+    is named after a repaired class that applies (regression), otherwise it is unclassified."""
+    known = [q for q in preds if q in SUPPRESSED]
+    if known:
+        return known[0]
+    return preds[0] if preds else 'C14/unclassified'
+
+
+SUPPRESSED = {f['signature'] for f in load_known_findings('C14') if f.get('status') == 'finding'}
+
+
 def predicates(rule, txn, oracles):
-    """Known-defect predicates over ONE loaded rule (impl JSON) and ONE transaction."""
+    """Defect-class predicates over ONE loaded rule (impl JSON) and ONE transaction. Classes whose finding is
+    recorded as fixed keep their predicate so that a regression is reported under its old name."""
     out = []
     p, m, c, s, tags = rule['p'], rule['m'], rule['c'], rule['s'], rule['tags']
     if m is None or c is None or s is None:
@@ -343,8 +364,10 @@ def predicates(rule, txn, oracles):
         if cnd['op'] == '=' and 0 < abs(a - Fraction(cnd['v'])) < Fraction(101, 10000):
             out.append('C14/amount-eq-tolerance')
             break
-    if not m.strip() or (not c.strip() and not tags):
+    if not c.strip() and not tags:
         out.append('C14/blank-merchant-or-category')
+    elif not m.strip():
+        out.append('C14/blank-merchant')
     elif any(x != x.strip() for x in (m, c, s)):
         out.append('C14/name-whitespace-trimmed')
     if is_expr_pattern(p):
@@ -386,15 +409,12 @@ def analyse(case, res):
         if not culprits:
             sig = 'C14/unclassified-interaction' if aligned else 'C14/unclassified-unaligned'
             if not aligned:       # rows dropped by the loader: classify over all loaded rules
-                ps = sorted({q for r in loaded for q in predicates(r, case['txns'][i], tabs)})
-                if ps:
-                    sig = ps[0]
+                ls = sorted({label(predicates(r, case['txns'][i], tabs)) for r in loaded}, key=rank)
+                if ls and not ls[-1].startswith('C14/unclassified'):
+                    sig = ls[-1]
         else:
-            sigs = []
-            for j, ps in culprits:
-                sigs.append(ps[0] if ps else 'C14/unclassified')
-            unk = [s for s in sigs if s == 'C14/unclassified']
-            sig = unk[0] if unk else sigs[0]
+            sigs = [label(ps) for j, ps in culprits]
+            sig = sorted(sigs, key=rank)[0]
         out.append({'txn': i, 'culprits': culprits, 'signature': sig})
     return out
 
@@ -489,6 +509,7 @@ Definition atom_eqb (a b : eatom) : bool :=
   match a, b with
   | ERegex p, ERegex q => String.eqb p q
   | EAmt o v, EAmt o' v' => (cmp_eqb o o' && Z.eqb v v')%bool
+  | EAmtNear v, EAmtNear v' => Z.eqb v v'
   | EDate o d, EDate o' d' => (cmp_eqb o o' && Z.eqb d d')%bool
   | EMonth m, EMonth m' => Z.eqb m m'
   | _, _ => false
@@ -521,9 +542,7 @@ Fixpoint assoc (p : string) (l : list (string * option bool)) : option bool :=
 (* every regex query the model makes must be answered by the table *)
 Definition queries_ok (tbl : list (string * string * option bool)) (rules : list csv_rule) (t : txn) : bool :=
   forallb (fun r => (match tbl_lookup tbl (pat r) (upper (desc t)) with Some _ => true | None => false end
-                     && match unesc (pat r) with
-                        | UVal u => match tbl_lookup tbl u (desc t) with Some _ => true | None => false end
-                        | _ => true end)%bool) rules.
+                     && match tbl_lookup tbl (pat r) (desc t) with Some _ => true | None => false end)%bool) rules.
 (* one sub-case: rules, today, expected text (or none), expected load, regex table,
    transactions with (legacy-expression answers, expected legacy result, expected migrated result) *)
 Definition case_t : Type := (list csv_rule * Z * option string * eload * list (string * string * option bool)
@@ -533,13 +552,14 @@ Definition check (c : case_t) : list nat :=
   let re := tbl_search tbl in
   app (match text with Some s => if String.eqb (gen_content rules) s then [] else [1%nat] | None => [] end)
   (app (if load_ok rules xl then [] else [2%nat])
+  (app (if forallb cells_stripped rules then [] else [6%nat])          (* the loader strips the cells *)
   (flat_map (fun '(t, lx, xleg, xmig) =>
         app (if queries_ok tbl rules t then [] else [3%nat])
         (app (if res_ok (legacy_classify re (fun p _ => assoc p lx) today rules t) xleg then [] else [4%nat])
             (match load_all rules with
             | LOk ers => if res_ok (engine_classify re ers t) xmig then [] else [5%nat]
             | _ => []
-            end))) txs)).
+            end))) txs))).
 (* how many generated rules lie inside the guard of c14_conversion_preserves_partial (whole-file sub-cases only) *)
 Definition safe_count (l : list case_t) : nat * nat :=
   fold_right (fun (c : case_t) acc =>
@@ -654,6 +674,11 @@ def coq_atoms(a):
             if u is None:
                 raise Skip('amount-not-representable')
             out.append(f'EAmt {ops[x[1]]} {z(u)}')
+        elif x[0] == 'near':
+            u = units(x[1]) if 'e' not in x[1] else None
+            if u is None:
+                raise Skip('amount-not-representable')
+            out.append(f'EAmtNear {z(u)}')
         elif x[0] == 'date':
             out.append(f'EDate {ops[x[1]]} {x[2]}')
         else:
@@ -865,20 +890,24 @@ def lit_check(seed, tier):
 
 # ------------------------------------------------------------------------------------------ witnesses of the refutations
 WITNESSES = [
-    # (signature, csv rule line, transaction) — the Coq witnesses of C14/Props.v replayed on the real code
-    ('C14/backslash-escape-in-pattern', '\\bUBER\\b,Uber,Transport,Ride,\n', {'d': 'UBER TRIP', 'a': '5.0', 'dt': '2025-01-01'}),
-    ('C14/backslash-escape-in-pattern', 'A(\\d)\\1,Rep,C,S,\n', {'d': 'A11', 'a': '5.0', 'dt': '2025-01-01'}),
-    ('C14/quote-in-pattern', '"A""B",Q,C,S,\n', {'d': 'A"B', 'a': '5.0', 'dt': '2025-01-01'}),
+    # (expected signature or None = must migrate faithfully, csv rule line, transaction)
+    # -- witnesses of the refutations in C14/Props.v, replayed on the real code
     ('C14/relative-date-modifier', 'X[amount>3][date:last30days],R,C,S,\n', {'d': 'X', 'a': '5.0', 'dt': '2020-01-01'}),
     ('C14/relative-date-modifier', 'X[date:last30days],R,C,S,\n', {'d': 'X', 'a': '5.0', 'dt': '2020-01-01'}),
-    ('C14/amount-eq-tolerance', 'X[amount=10.00],E,C,S,\n', {'d': 'X', 'a': '10.0078125', 'dt': '2025-01-01'}),
-    ('C14/blank-merchant-or-category', 'X,,C,S,\n', {'d': 'X', 'a': '5.0', 'dt': '2025-01-01'}),
-    ('C14/blank-merchant-or-category', 'X,M,,S,\n', {'d': 'X', 'a': '5.0', 'dt': '2025-01-01'}),
+    ('C14/blank-merchant', 'X,  ,C,S,\n', {'d': 'X', 'a': '5.0', 'dt': '2025-01-01'}),
     ('C14/legacy-paren-pattern-is-expression', '(UBER|LYFT),Ride,C,S,\n', {'d': 'UBER TRIP', 'a': '5.0', 'dt': '2025-01-01'}),
-    ('C14/name-whitespace-trimmed', 'NETFLIX, Netflix,Subs,Stream,\n', {'d': 'NETFLIX', 'a': '5.0', 'dt': '2025-01-01'}),
     ('C14/comma-in-tag', 'X,M,C,S,"a,b|c"\n', {'d': 'X', 'a': '5.0', 'dt': '2025-01-01'}),
-    ('C14/missing-column-renders-None', 'X,M\n', {'d': 'X', 'a': '5.0', 'dt': '2025-01-01'}),
     ('C14/description-uppercased-before-search', 'UBER (?-i:Eats),M,C,S,\n', {'d': 'UBER Eats', 'a': '5.0', 'dt': '2025-01-01'}),
+    # -- witnesses of the repaired defects (c14_fixed_* Examples): must now agree
+    (None, '\\bUBER\\b,Uber,Transport,Ride,\n', {'d': 'UBER TRIP', 'a': '5.0', 'dt': '2025-01-01'}),
+    (None, 'A(\\d)\\1,Rep,C,S,\n', {'d': 'A11', 'a': '5.0', 'dt': '2025-01-01'}),
+    (None, '"A""B",Q,C,S,\n', {'d': 'A"B', 'a': '5.0', 'dt': '2025-01-01'}),
+    (None, 'END\\,E,C,S,\n', {'d': 'END\\', 'a': '5.0', 'dt': '2025-01-01'}),
+    (None, 'X[amount=10.00],E,C,S,\n', {'d': 'X', 'a': '10.0078125', 'dt': '2025-01-01'}),
+    (None, 'X[amount=10.00],E,C,S,\n', {'d': 'X', 'a': '10.01', 'dt': '2025-01-01'}),
+    (None, 'X,M, ,S,\n', {'d': 'X', 'a': '5.0', 'dt': '2025-01-01'}),
+    (None, 'NETFLIX, Netflix, Subs ,Stream,\n', {'d': 'NETFLIX', 'a': '5.0', 'dt': '2025-01-01'}),
+    (None, 'X,M\n', {'d': 'X', 'a': '5.0', 'dt': '2025-01-01'}),
 ]
 
 
@@ -902,15 +931,18 @@ def main(tier):
         'converter omits regex())',
         'ORACLE legacy_expr : the legacy path evaluating a CSV pattern as an expression (_is_expression_pattern); a Section '
         'variable, irrelevant under safe_rule',
-        'money is exact (Z, unit 1/6400); abs(amount - v) < 0.01 is compared exactly: transactions on which the float evaluation '
-        'differs from the exact one (e.g. 10.01 vs [amount=10.00]: 0.00999..98 < 0.01) are excluded from the model comparison, '
-        'counted, and still run through the implementation-only oracle',
+        'money is exact (Z, unit 1/6400); abs(amount - v) < 0.01 (now evaluated by BOTH paths with the same float expression) is '
+        'compared exactly in the model: transactions on which the float evaluation differs from the exact one (e.g. 10.01 vs '
+        '[amount=10.00]: 0.00999..98 < 0.01) are excluded from the model comparison, counted, and still run through the '
+        'implementation-only oracle',
+        'the model describes the tree after the adopted fixes (escaped pattern literal, abs() tolerance, stripped loader cells, skipped '
+        'no-op rows); signatures recorded as fixed are not suppressed: a regression is a VIOLATION under its old signature',
         'transactions always carry an amount and a date (as tally builds them); dates are proleptic Gregorian ordinals',
         'the rules-file reader is modelled at field level (strip, non-empty header, category-or-tags, char-level tag splitting); '
         'the string literal of regex("...") is lexed and un-escaped char by char; comparison atoms are taken structurally; the '
         "agreement of all of this with MerchantEngine.parse / CPython's parser on the generated text is checked on every case",
-        'not modelled (counted, never compared): newline/CR/NUL inside a field, dynamic {expr} tags, \\N{..} \\u \\U escapes, '
-        'rows with missing columns (None), non-ASCII case mapping, relative windows longer than today\'s ordinal']
+        'not modelled (counted, never compared): newline/CR/NUL inside a field, dynamic {expr} tags, '
+        'non-ASCII case mapping, relative windows longer than today\'s ordinal']
     res = run.proof_step(COQ_FILES, extra_trusted=[
         'harness/c14.py + harness/impl_c14.py (generators, correspondence, oracle)',
         'CPython re / ast (library oracles, instantiated by tables computed with the implementation interpreter)'])
@@ -994,7 +1026,7 @@ def main(tier):
         elif mb:
             (ci, label), codes = mb[0]
             names = {1: 'generated text differs', 2: 'parsed-back rules differ', 3: 'regex table incomplete', 4: 'legacy classification differs',
-                     5: 'migrated classification differs'}
+                     5: 'migrated classification differs', 6: 'loaded Merchant/Category/Subcategory cell not stripped'}
             sub = results[ci] if label == 'file' else results[ci]['alone'][int(label[4:])]
             broken.append({'kind': 'broken-correspondence', 'obligation': 'model_vs_impl(C14.Model, merchant_engine/merchant_utils)',
                            'detail': {'what': [names.get(x, x) for x in sorted(set(codes))], 'sub_case': label, 'csv': cases[ci]['csv'],
